@@ -626,3 +626,16 @@ CORPUS += [
     V("C06", "cvrp-invented-assert", R + "cvrp/env.py", '        d = demand_with_depot.gather(1, actions)\n', '        d = demand_with_depot.gather(1, actions)\n        assert (td["demand"] <= 0.5 * td["vehicle_capacity"]).all()\n', "C06.g"),
     V("C06", "eq-cvrptw-window-sanity-nonstrict", R + "cvrptw/env.py", 'td["time_windows"][..., 0] < td["time_windows"][..., 1]', 'td["time_windows"][..., 0] <= td["time_windows"][..., 1]', None),
 ]
+
+CORPUS += [
+    V("C01", "tsp-counter-not-advanced", R + "tsp/env.py", '                "i": td["i"] + 1,\n                "action_mask": available,\n                "reward": reward,', '                "action_mask": available,\n                "reward": reward,', "C01.g"),
+    V("C01", "pdp-reset-drops-locs", R + "pdp/env.py", '                "locs": locs,\n                "current_node": current_node,\n                "to_deliver": to_deliver,', '                "current_node": current_node,\n                "to_deliver": to_deliver,', "C01.g"),
+    V("C01", "pdp-initial-mask-or", R + "pdp/env.py", "            action_mask = action_mask & to_deliver", "            action_mask = action_mask | to_deliver", "C01.k"),
+    V("C01", "mtsp-depot-open-at-start", R + "mtsp/env.py", "        available[..., 0] = 0  # Depot is not available as first node\n", "", "C01.k"),
+    V("C01", "mtvrp-linehauls-missing-nonstrict", R + "mtvrp/env.py", '(td["demand_linehaul"] * ~td["visited"]).sum(-1) > 0', '(td["demand_linehaul"] * ~td["visited"]).sum(-1) >= 0', "C01.d"),
+    V("C02", "atsp-done-never", R + "atsp/env.py", "done = torch.count_nonzero(available, dim=-1) <= 0", "done = torch.count_nonzero(available, dim=-1) < 0", "C02.c"),
+    V("C02", "op-done-counter-reversed", R + "op/env.py", '(td["i"] > 0)', '(td["i"] < 0)', "C02.c"),
+    V("C03", "mtsp-sum-mode-guard-inverted", R + "mtsp/env.py", 'elif self.cost_type == "sum":', 'elif self.cost_type != "sum":', "C03.c"),
+    V("C03", "mdcpdp-lateness-weight-sign", R + "mdcpdp/env.py", 'cost * (1 - td["lateness_weight"].squeeze())', 'cost * (1 + td["lateness_weight"].squeeze())', "C03.c"),
+    V("C03", "mdcpdp-minmax-guard-inverted", R + "mdcpdp/env.py", 'if self.reward_mode == "minmax":', 'if self.reward_mode != "minmax":', "C03"),
+]
